@@ -189,7 +189,22 @@ async def s_idle(ctl):
     await ctl.cmd(c, "PWD")
 
 
+async def s_retr_unread(ctl):
+    """the peer makes the data connection but never reads from it: the server's send buffer stays full"""
+    c = await ctl.client()
+    await ctl.login(c)
+    await ctl.cmd(c, "EPSV")
+    await ctl.data(c)
+    c.data[1].transport.peer.hold = True  # server -> client data direction: nothing is taken off the wire
+    c.data[1].transport.peer.HIGH = 256
+    await ctl.send(c, "RETR huge.bin")
+    await asyncio.sleep(1)
+    await ctl.loop.settle()
+    await ctl.send(c, "PWD")
+
+
 TREE_BIG = S.TREE + [(("big.bin",), BIG)]
+TREE_HUGE = S.TREE + [(("huge.bin",), BIG * 8)]
 
 
 def gate_backend(name, occ=0):
@@ -239,6 +254,7 @@ def corpus(thorough=False):
         Scenario("epsv@listener-gated", s_epsv_only, net_setup=gate_listener),
         Scenario("pool@listener-gated", s_epsv_only, server_kwargs={"data_ports": [41001, 41002]}, net_setup=gate_listener),
     ]
+    sc.append(Scenario("retr-unread", s_retr_unread, tree=TREE_HUGE, server_kwargs=small_blocks))
     if thorough:
         for backend in ("pathio", "async"):
             sc += [
@@ -248,3 +264,31 @@ def corpus(thorough=False):
                 Scenario("list-mlsd/" + backend, s_list_mlsd, backend=backend),
             ]
     return sc
+
+
+GATE_BASES = ("tree-ops", "retr", "stor", "appe-rest", "list-mlsd", "pasv-twice", "two-sessions")
+
+
+def corpus_with_gates(thorough=False):
+    """the corpus plus, for each transfer / tree script, one variant per backend-call kind it makes, with that
+    call held open (first occurrence; thorough: also the last one) so that cuts land inside every awaited
+    backend call.  Deterministic: built from the fault-free spy log of each base script."""
+    import scenario as SC
+
+    base = corpus(thorough)
+    have = {s.name for s in base}
+    out = list(base)
+    for sc in base:
+        if sc.name not in GATE_BASES:
+            continue
+        calls = SC.run_scenario(sc)["spy_calls"]
+        for name in sorted(set(calls)):
+            n = calls.count(name)
+            occs = [0] + ([n - 1] if thorough and n > 1 else [])
+            for occ in occs:
+                nm = "%s@%s#%d-gated" % (sc.name, name, occ)
+                if nm in have:
+                    continue
+                have.add(nm)
+                out.append(Scenario(nm, sc.script, users=sc.users, tree=sc.tree, server_kwargs=sc.server_kwargs, backend=sc.backend, spy_setup=gate_backend(name, occ)))
+    return out
